@@ -23,12 +23,12 @@ def r_fmt(repo, tier):
     )
     decls, unfolded = specs(repo)
     for f, d, why in unfolded:
-        out.undecide(f.file, f.qual, norm(d.args[0]) if d.args else "?", why)
+        out.undecide(f.file, f.dqual, norm(d.args[0]) if d.args else "?", why)
     for s in decls:
-        key = "%s::%s::%s" % (s.func.file, s.func.qual, s.raw)
+        key = "%s::%s::%s" % (s.func.file, s.func.dqual, s.raw)
         if s.model is None:
             out.inst(key)
-            out.report(s.func.file, s.func.qual, "@%s(%r)" % (s.cls, s.raw), s.line, "format does not parse: %s" % s.err)
+            out.report(s.func.file, s.func.dqual, "@%s(%r)" % (s.cls, s.raw), s.line, "format does not parse: %s" % s.err)
             continue
         errs = s.model.wellformed()
         m = s.model
@@ -36,7 +36,7 @@ def r_fmt(repo, tier):
             key,
             {
                 "spec": s.raw,
-                "hook": s.func.qual,
+                "hook": s.func.dqual,
                 "len": m.len,
                 "dir": m.dir,
                 "fixedbits": m.fixedbits,
@@ -45,7 +45,7 @@ def r_fmt(repo, tier):
             nontrivial=True,
         )
         for e in errs:
-            out.report(s.func.file, s.func.qual, "@%s(%r)" % (s.cls, s.raw), s.line, e)
+            out.report(s.func.file, s.func.dqual, "@%s(%r)" % (s.cls, s.raw), s.line, e)
     out.stats["specs"] = len(decls)
     out.stats["spec_modules"] = len({s.func.mod.name for s in decls})
     out.floor(5000, "ispec decorators")
@@ -75,14 +75,14 @@ def r_sig(repo, tier):
                 required.add(x.arg)
         allp = set(params) | set(kwonly)
         delivered = s.delivered() | {"obj"}
-        key = "%s::%s::%s" % (s.func.file, s.func.qual, s.raw)
-        out.inst(key, {"spec": s.raw, "hook": s.func.qual, "delivered": sorted(delivered - {"obj"}), "required": sorted(required - {"obj"})})
+        key = "%s::%s::%s" % (s.func.file, s.func.dqual, s.raw)
+        out.inst(key, {"spec": s.raw, "hook": s.func.dqual, "delivered": sorted(delivered - {"obj"}), "required": sorted(required - {"obj"})})
         if "obj" not in allp or any(x.arg == "obj" for x in a.posonlyargs):
-            out.report(s.func.file, s.func.qual, "def %s(%s)" % (s.func.name, ", ".join(params)), s.func.node.lineno, "hook is called with obj=<instruction> but has no keyword-capable parameter named obj")
+            out.report(s.func.file, s.func.dqual, "def %s(%s)" % (s.func.name, ", ".join(params)), s.func.node.lineno, "hook is called with obj=<instruction> but has no keyword-capable parameter named obj")
         for p in sorted(required - delivered):
             out.report(
                 s.func.file,
-                s.func.qual,
+                s.func.dqual,
                 "missing %s <- @%s(%r)" % (p, s.cls, s.raw),
                 s.line,
                 "setup function requires parameter %r that the specification does not deliver (TypeError on every matching word)" % p,
@@ -91,7 +91,7 @@ def r_sig(repo, tier):
             for p in sorted(delivered - allp):
                 out.report(
                     s.func.file,
-                    s.func.qual,
+                    s.func.dqual,
                     "unknown %s <- @%s(%r)" % (p, s.cls, s.raw),
                     s.line,
                     "specification delivers %r which the setup function does not accept (TypeError on every matching word)" % p,
